@@ -1323,3 +1323,243 @@ class Alloc(Stream):
 
 
 STREAMS.update({"alloc": Alloc()})
+
+
+# ------------------------------------------------------------------------------- network streams
+import netgen as NG
+
+
+def parse_net(impl):
+    """-> (results: {k: (res, dur)}, udp: [(q,t,bytes)], tcp: [(q,t,bytes)])"""
+    res, udp, tcp = {}, [], []
+    for part in impl.split(" "):
+        m = re.match(r"Q(\d+)=(.*)@(\d+)$", part)
+        if m:
+            res[int(m.group(1))] = (m.group(2), int(m.group(3)))
+        elif part.startswith("UDP=[") or part.startswith("TCP=["):
+            body = part[5:-1]
+            lst = udp if part.startswith("UDP") else tcp
+            for it in body.split(","):
+                if it:
+                    q, t, h = it.split(":")
+                    lst.append((int(q) if int(q) < 10 ** 9 else -1, int(t), bytes.fromhex(h) if h != "-" else b""))
+    return res, udp, tcp
+
+
+class Net(Stream):
+    """scripted loopback scenarios for the four clients; expectation = what a correct DNS client does"""
+    focus = "wire"
+    name = "net"
+    SLACK = 250      # scheduling slack allowed on top of the lifetime (ms)
+    TOL = 130        # tolerance for transmission times (ms)
+
+    def generate(self, rng, tier, pid):
+        n = self.quick_n if tier == "quick" else self.thorough_n
+        out = []
+        self.scen = {}
+        for i in range(n):
+            client = NG.CLIENTS[i % 4]
+            sc = NG.gen_scenario(rng, self.focus, client)
+            cid = "%s%d" % (self.focus[:2], i)
+            self.scen[cid] = sc
+            out.append(sc.line(cid))
+        return out
+
+    def run(self, cases, pid, tier):
+        # real-time scenarios: run in parallel (each case mostly sleeps), no model side
+        impl = run_net_parallel(cases)
+        # timing-only mismatches are retried twice before they count
+        fails = []
+        retried = 0
+        hist = {}
+        samples = []
+        nontriv = 0
+        for line in cases:
+            cid = line.split(" ", 1)[0]
+            i = impl.get(cid, "MISSING")
+            why = self.oracle(line, i, None, pid)
+            tries = 0
+            while why and ("timing" in why or "transmission" in why) and tries < 2:
+                tries += 1
+                retried += 1
+                i = run_net_parallel([line]).get(cid, "MISSING")
+                why = self.oracle(line, i, None, pid)
+            if why:
+                sc = self.scen.get(cid)
+                k = "%s:%s" % (sc.client if sc else "?", why[:40])
+                fails.append({"stream": self.name, "case": line, "observed": i[:900], "expected": "see why", "why": "[%s client] %s" % (sc.client if sc else "?", why)})
+            c = self.classify(line, i)
+            hist[c] = hist.get(c, 0) + 1
+            if "ok:" in i or "err:Timeout" in i:
+                nontriv += 1
+            if len(samples) < 3:
+                samples.append({"case": line.split(" ", 1)[1][:300], "impl": i[:300]})
+        return {"evaluations": len(cases), "distinct_nontrivial": nontriv, "rule": self.rule, "samples": samples, "histogram": hist,
+                "disagreements": [], "failures": fails, "timing_retries": retried, "model_impl_agree": len(cases)}
+
+    def classify(self, line, impl):
+        sc = self.scen.get(line.split(" ", 1)[0])
+        m = re.search(r"Q0=([a-z]+:?[A-Za-z]*)", impl)
+        return "%s:%s" % (sc.client if sc else "?", m.group(1) if m else impl[:10])
+
+    def oracle(self, line, impl, spec, pid):
+        if impl.startswith(ABNORMAL) or "PANIC" in impl:
+            return "implementation " + impl[:60]
+        cid = line.split(" ", 1)[0]
+        sc = self.scen.get(cid)
+        if sc is None:
+            return None
+        if "new=err" in impl:
+            return "client construction failed: " + impl[:80]
+        res, udp, tcp = parse_net(impl)
+        t_base = None
+        for k, q in enumerate(sc.queries):
+            if k not in res:
+                return "no result for query %d" % k
+            r, dur = res[k]
+            e = NG.expect_query(sc, q)
+            myudp = [(t, b) for (qq, t, b) in udp if qq == k]
+            mytcp = [(t, b) for (qq, t, b) in tcp if qq == k]
+            if q.drop is not None:
+                if r != "dropped":
+                    return "query %d was to be dropped after %d ms, got %s" % (k, q.drop, r[:60])
+                continue
+            # ---- refused names / short buffers: an error before anything is sent
+            if e["kind"] == "err:name":
+                if not r.startswith("err:DomainName"):
+                    return "query %d: invalid name %r must be refused, got %s" % (k, q.name, r[:80])
+                if myudp or mytcp:
+                    return "query %d: invalid name but %d datagram(s)/%d connection(s) were sent" % (k, len(myudp), len(mytcp))
+                continue
+            if e["kind"] == "err:BufferTooShort(512)":
+                if r != e["kind"] or myudp or mytcp:
+                    return "query %d: buffer < 512 must be refused before sending, got %s (%d sent)" % (k, r[:60], len(myudp))
+                continue
+            # ---- what was put on the wire (C11)
+            want_q = NG.expected_query(q.name, q.qtype, q.qclass, sc.rd, sc.edns, sc.buf if q.kind == "raw" else 65535)
+            ids = set()
+            for (t, b) in myudp:
+                ids.add(b[:2])
+                if b[2:] != want_q[2:]:
+                    return "query %d: datagram on the wire differs from the request: got %s want ....%s" % (k, b.hex()[:120], want_q.hex()[4:120])
+            for (t, b) in mytcp:
+                if len(b) < 4 or int.from_bytes(b[:2], "big") != len(b) - 2:
+                    return "query %d: TCP length prefix %s does not match %d message bytes" % (k, b[:2].hex(), len(b) - 2)
+                ids.add(b[2:4])
+                if b[4:] != want_q[2:]:
+                    return "query %d: TCP message differs from the request: %s" % (k, b.hex()[:120])
+            if len(ids) > 1:
+                return "query %d: retransmissions / TCP fallback changed the message id: %s" % (k, sorted(x.hex() for x in ids))
+            qid = next(iter(ids)) if ids else None
+            # ---- transport strategy (C13)
+            if sc.strategy == "tcp" and myudp:
+                return "query %d: TCP-only strategy sent %d datagram(s)" % (k, len(myudp))
+            if sc.strategy == "notcp" and mytcp:
+                return "query %d: UDP-only strategy opened %d TCP connection(s)" % (k, len(mytcp))
+            if len(mytcp) != e["tcp"]:
+                return "query %d: expected %d TCP connection(s), saw %d (result %s)" % (k, e["tcp"], len(mytcp), r[:60])
+            # ---- result
+            rr = q.kind != "raw"
+            if e["kind"] == "ok":
+                payload = e.get("payload")
+                if e.get("echo"):
+                    payload = myudp[0][1] if myudp else b""
+                if rr:
+                    want = self.rr_expect(q, payload, e)
+                    if r != want:
+                        return "query %d: typed query returned %s, record-set extraction of the accepted bytes gives %s" % (k, r[:100], want[:100])
+                else:
+                    m = re.match(r"ok:(\d+):([0-9a-f-]+)$", r)
+                    if not m:
+                        return "query %d: expected the accepted response (%d bytes), got %s" % (k, len(payload), r[:80])
+                    got = bytes.fromhex(m.group(2)) if m.group(2) != "-" else b""
+                    if int(m.group(1)) != len(payload) or got[2:] != payload[2:]:
+                        return "query %d: returned bytes are not exactly the accepted response: got %s want ....%s" % (k, got.hex()[:140], payload.hex()[4:140])
+                    if qid is not None and len(got) >= 2 and got[:2] != qid:
+                        return "query %d: returned a response with id %s, query id was %s" % (k, got[:2].hex(), qid.hex())
+            else:
+                want = e["kind"]
+                if rr and want.startswith("err:BufferTooShort(") and False:
+                    pass
+                if r != want:
+                    return "query %d: expected %s, got %s" % (k, want, r[:100])
+            # ---- retransmission schedule and lifetime (C15)
+            if sc.strategy != "tcp":
+                if len(myudp) != e["sends"]:
+                    return "query %d: expected %d transmission(s), saw %d (timing)" % (k, e["sends"], len(myudp))
+                if myudp and sc.qt is not None:
+                    t0 = myudp[0][0]
+                    for i, (t, b) in enumerate(myudp):
+                        if abs((t - t0) - i * sc.qt) > self.TOL:
+                            return "query %d: transmission %d at +%d ms, expected +%d ms (timing)" % (k, i, t - t0, i * sc.qt)
+            if dur > sc.life + self.SLACK:
+                return "query %d: call lasted %d ms, lifetime is %d ms (timing)" % (k, dur, sc.life)
+            if e["kind"] == "err:Timeout" and dur < sc.life - self.TOL:
+                return "query %d: Timeout reported after %d ms, lifetime is %d ms (timing)" % (k, dur, sc.life)
+        return None
+
+    @staticmethod
+    def rr_expect(q, payload, e):
+        """record-set extraction of the accepted bytes, from the message semantics"""
+        if e.get("echo"):
+            return "err:BadMessageType(false)"
+        flags = int.from_bytes(payload[2:4], "big")
+        if flags & 0x0200:
+            return "err:MessageTruncated"
+        want_ty = int(q.kind[2:])
+        ans_ty = q.qtype if q.qtype in (28, 16) else 1
+        qn = payload[12:12 + len(NG.qname_wire(q.name))]
+        labels = []
+        p = 0
+        while qn[p]:
+            labels.append(qn[p + 1:p + 1 + qn[p]])
+            p += 1 + qn[p]
+        text = (b"".join(l + b"." for l in labels) or b".").hex()
+        if ans_ty != want_ty:
+            return "err:NoAnswer"
+        return "ok:RS(%s,%d,3600,1)" % (text, q.qclass)
+
+
+def run_net_parallel(cases, width=12):
+    """net cases are real-time: run each in its own worker process, `width` at a time"""
+    import subprocess, threading
+    out = {}
+    lock = threading.Lock()
+    it = iter(cases)
+
+    def work():
+        while True:
+            with lock:
+                line = next(it, None)
+            if line is None:
+                return
+            cid = line.split(" ", 1)[0]
+            try:
+                p = subprocess.run([C.HARNESS_BIN, "worker"], input=line + "\n", capture_output=True, text=True, timeout=40)
+                r = [l for l in p.stdout.splitlines() if l.startswith("R ")]
+                res = r[0].split(" ", 2)[2] if r else ("CRASH(rc=%s)" % p.returncode)
+            except subprocess.TimeoutExpired:
+                res = "HANG"
+            with lock:
+                out[cid] = res
+    ts = [threading.Thread(target=work) for _ in range(width)]
+    for t in ts:
+        t.start()
+    for t in ts:
+        t.join()
+    return out
+
+
+def net_stream(nm, focus_, rule_, qn, tn):
+    cls = type("Net_" + nm, (Net,), {"name": nm, "focus": focus_, "rule": rule_, "quick_n": qn, "thorough_n": tn})
+    return cls()
+
+
+STREAMS.update({
+    "netwire": net_stream("netwire", "wire", "one query per scenario: names from the nametext grammar (valid, max length, invalid), any type/class, RD, EDNS off/on x version x payload {512,1232,4096,65535}, caller buffer {100,511,512,513,1232,4096}, UDP and TCP-only; the scripted loopback server records every datagram and TCP byte. 4 clients round-robin.", 120, 2400),
+    "udpfilter": net_stream("udpfilter", "udpfilter", "before the genuine response the server sends 0..12 datagrams of 14 non-matching kinds (empty, 5 and 11 bytes, random, id+1, id byte-swapped, one letter off, wrong type, wrong class, QDCOUNT 0/2, truncated question, header only, self-pointer name) 8 ms apart, then a matching one (genuine, case-flipped question, echoed query) or none, then more junk. 4 clients.", 96, 2000),
+    "strategy": net_stream("strategy", "strategy", "3 strategies x {untruncated, truncated} UDP answers preceded by 0-4 ignored datagrams x TCP answers (whole, segmented, with trailing bytes) x 4 clients; the server records datagrams and TCP connections.", 96, 1600),
+    "tcpframe": net_stream("tcpframe", "tcpframe", "TCP-only: prefix+body split at 1-6 random points with 3-8 ms gaps, early close at 0,1,2,3,half,N,N+1,N+2 bytes, announced length around the caller buffer (buf-1, buf, buf+1, 65535), padded bodies at the buffer boundary, trailing garbage, zero-length body x 4 clients.", 96, 2000),
+    "timing": net_stream("timing", "timing", "query_timeout 300 ms / none, lifetime 1050 ms: silence, answer after 1-3 timeouts, junk every 25 ms across whole attempts (then answer or silence), TCP stall after 0/1/5 bytes, TCP drip at 15/60 ms per byte x 4 clients; transmissions must come at multiples of the timeout (+-130 ms), identical, and the call must end by lifetime+250 ms; timing-only mismatches are retried twice.", 64, 720),
+    "history": net_stream("history", "history", "2-6 queries on one client object: raw and typed (A/AAAA/TXT), answered, timed out, refused for a bad name, truncated with oversized/short TCP answers, a malformed datagram followed by a large answer, async queries dropped mid-flight, with late responses to earlier queries delivered during later ones; each query must behave as on a fresh client. 4 clients.", 64, 800),
+})
